@@ -65,7 +65,7 @@ def r1_number_arms(rep, ctx):
         # the callback parameter, or the entry of a constant table of operator functions for this operation
         if t[0] == "param" and t[1] == 4:
             return True
-        return t[0] == "sub" and t[1][0] == "dict" and t[2] == ("param", P.get("operation"), "operation") and all(v_[0] == "opfn" for _k, v_ in t[1][1])
+        return t[0] == "sub" and t[1][0] == "dict" and t[2] == ("param", P.get("operation"), "operation") and all(v_[0] in ("opfn", "opfn-swapped") for _k, v_ in t[1][1])
 
     def own_cwq(t):
         own = (("attr", ("self",), "__class__"), ("field", "__class__"), ("call", ("name", "type"), (("self",),), ()))
